@@ -8,3 +8,6 @@ import "github.com/syndtr/goleveldb/leveldb"
 // verifC05Write is the disabled form of the verification write gate (see
 // verif_c05_hook.go, build tag verif). It does nothing and is inlined away.
 func verifC05Write(h *leveldb.DB, op string, key []byte, n int) {}
+
+// verifC05Fault is the disabled form of the verification write-fault gate: never a fault.
+func verifC05Fault(h *leveldb.DB, op string, key []byte, n int) error { return nil }
